@@ -20,6 +20,7 @@ import (
 	"fmt"
 	"os"
 	"path/filepath"
+	"regexp"
 	"sort"
 	"strings"
 	"sync"
@@ -114,6 +115,111 @@ func child(seed int64, tier string, from, to, only, conc int, outPath, progPath,
 		time.Sleep(20 * time.Millisecond)
 	}
 	wg.Wait()
+	if res := residue(); res != nil {
+		res.Scenarios = [2]int{from, to}
+		b, _ := json.Marshal(map[string]interface{}{"residue": res})
+		w.Write(b)
+		w.WriteByte('\n')
+		w.Flush()
+	}
+}
+
+// Residue is what is left of the code under test after every scenario of a child has been torn down (every
+// collector, pool and superior stopped, every proxy closed, the harness's own goroutines gone).
+type Residue struct {
+	Scenarios [2]int   `json:"scenarios"`  // [from, to) of the batch
+	Judged    bool     `json:"judged"`     // every remaining repository goroutine is blocked on a lock / wait group
+	Blocked   []string `json:"blocked_in"` // "<state> in <innermost repository function>"
+	Other     []string `json:"other_states,omitempty"`
+	Dump      string   `json:"dump"`
+}
+
+var goHeadRe = regexp.MustCompile(`^goroutine (\d+) \[([^\],]+)`)
+
+// repoGoroutines returns id -> "state in innermost-repository-function" of the goroutines that have a frame in the
+// cluster code and none in the harness.
+func repoGoroutines(dump string) map[string]string {
+	out := map[string]string{}
+	for _, blk := range strings.Split(dump, "\n\n") {
+		lines := strings.Split(strings.TrimSpace(blk), "\n")
+		m := goHeadRe.FindStringSubmatch(lines[0])
+		if m == nil {
+			continue
+		}
+		fn, harness := "", false
+		for _, l := range lines[1:] {
+			if strings.HasPrefix(l, "main.") || strings.HasPrefix(l, "created by main.") {
+				harness = true
+			}
+			if fn == "" && strings.HasPrefix(l, "massnet.org/mass/fractal") {
+				fn = strings.SplitN(l, "(0x", 2)[0]
+				if i := strings.LastIndex(fn, "("); i > 0 && strings.HasSuffix(fn, ")") == false {
+					_ = i
+				}
+			}
+		}
+		if fn != "" && !harness {
+			out[m[1]] = m[2] + " in " + strings.TrimPrefix(fn, "massnet.org/mass/")
+		}
+	}
+	return out
+}
+
+func hardBlocked(state string) bool {
+	for _, p := range []string{"semacquire", "sync.WaitGroup.Wait", "sync.Mutex.Lock", "sync.RWMutex.Lock", "sync.RWMutex.RLock", "sync.Cond.Wait"} {
+		if strings.HasPrefix(state, p) {
+			return true
+		}
+	}
+	return false
+}
+
+// residue waits (bounded) for the cluster code's goroutines to be gone. What is still there after the bound is a
+// verdict only if nothing could ever wake it: every remaining repository goroutine blocked on a lock or a wait
+// group (no timer, no socket, no channel the harness might still serve), the same goroutines in two dumps a second apart.
+func residue() *Residue {
+	var gs map[string]string
+	var dump string
+	for i := 0; i < 80; i++ {
+		dump = fullDump()
+		gs = repoGoroutines(dump)
+		if len(gs) == 0 {
+			return nil
+		}
+		time.Sleep(100 * time.Millisecond)
+	}
+	time.Sleep(time.Second)
+	dump2 := fullDump()
+	gs2 := repoGoroutines(dump2)
+	res := &Residue{Judged: true, Dump: dump2}
+	seen := map[string]bool{}
+	for id, st := range gs2 {
+		state := strings.SplitN(st, " in ", 2)[0]
+		if !hardBlocked(state) {
+			res.Judged = false
+			if !seen["o"+st] {
+				seen["o"+st] = true
+				res.Other = append(res.Other, st)
+			}
+			continue
+		}
+		if gs[id] != st {
+			res.Judged = false
+		}
+		if !seen[st] {
+			seen[st] = true
+			res.Blocked = append(res.Blocked, st)
+		}
+	}
+	if len(gs2) == 0 {
+		return nil
+	}
+	sort.Strings(res.Blocked)
+	sort.Strings(res.Other)
+	if len(res.Dump) > 60000 {
+		res.Dump = res.Dump[:60000]
+	}
+	return res
 }
 
 // ---------------------------------------------------------------- parent
@@ -175,6 +281,7 @@ func main() {
 			"-watchdog", watchdog.String()}
 		res := vh.RunChild(argv, []string{"GORACE=halt_on_error=0 log_path=" + raceBase}, logf, 20*time.Minute)
 		run.Count("child_batches", 1)
+		run.Count("batches_checked_for_goroutines_left_after_teardown", 1)
 		started := map[int]bool{}
 		last := -1
 		for _, l := range vh.ReadLines(prog) {
@@ -218,6 +325,22 @@ func main() {
 				map[string]interface{}{"exit": res.ExitCode, "signal": res.Signal, "last_started_scenario": last, "scenarios_running": open, "fatal": fatal})
 		}
 		for _, l := range vh.ReadLines(out) {
+			if strings.HasPrefix(l, `{"residue":`) {
+				var x struct {
+					Residue *Residue `json:"residue"`
+				}
+				if json.Unmarshal([]byte(l), &x) == nil && x.Residue != nil {
+					rs := x.Residue
+					if !rs.Judged {
+						run.Count("batches_with_goroutines_left_after_teardown(not judged: some wait on timers, sockets or channels)", 1)
+						run.Set(fmt.Sprintf("residue_not_judged_batch_%d", rs.Scenarios[0]), map[string]interface{}{"blocked": rs.Blocked, "other": rs.Other})
+					} else {
+						run.Violate(rs.Scenarios[0], "goroutines-blocked-for-good-after-teardown", map[string]string{"blocked_in": strings.Join(rs.Blocked, "; ")},
+							map[string]interface{}{"scenarios_of_the_batch": rs.Scenarios, "blocked": rs.Blocked, "goroutine_dump": rs.Dump})
+					}
+				}
+				continue
+			}
 			var rec Rec
 			if json.Unmarshal([]byte(l), &rec) != nil {
 				continue
